@@ -438,7 +438,8 @@ def unit_language(ctx):
     reqs = []
     for spelled in ["#language:fr", "# language : fr ", "  #language: en-tx\n", "#language:", "#language: fr x", "# language: a_b-C",
                     "#  language:\tfr\r\n", "#language: fr#", "#Language: fr", "# language: no-such", "    # language: no-such  ",
-                    "#language:fr\n\n", "　#language: ja", "#language: em"]:
+                    "#language:fr\n\n", "　#language: ja", "#language: em", "#language: en2", "# language: v2", "# language: français", "#language: en_",
+                    "# language: é", "#language: 2", "# language: fr2 ", "#language: en.", "# language: sr-Cyrl", "# language: SR-cyrl", "#language: EN"]:
         for kind in ("Language", "Comment"):
             reqs.append(("match", [kind, S.mstate("en"), spelled, 2]))
     for _ in range(S.n_for(3000, 50000)):
